@@ -300,3 +300,60 @@ func REndCover(c *core.Ctx) {
 	}
 	c.Check(okExt && derived, "extendClock / clock end = the given deadline + slop, and no other deadline is handed back", extend.Pos(), "returns nothing or its own parameter: %v; clockEnd written as <param> + slop: %v", okExt, derived)
 }
+
+// R-PERIOD: the clock sleeps for the CURRENT period.
+func RPeriod(c *core.Ctx) {
+	c.Rule("R-PERIOD", "runClock passes time.Sleep a value of the package variable clockPeriod that is read inside the polling loop, i.e. re-read on every tick: makeDeadline rounds deadlines with the current value, so a clock that kept sleeping for a period cached before SetTimeoutCheckPeriod shortened it would fire timeouts late", 1)
+	p := c.P
+	fn := p.SSAFunc(p.LookupFunc("", "runClock"))
+	if fn == nil {
+		c.Anchor("regexp2.runClock")
+		return
+	}
+	c.Visit(core.SSAName(fn))
+	n := 0
+	for _, b := range fn.Blocks {
+		for _, ins := range b.Instrs {
+			call, ok := ins.(*ssa.Call)
+			if !ok {
+				continue
+			}
+			cal := call.Call.StaticCallee()
+			if cal == nil || cal.Pkg == nil || cal.Pkg.Pkg.Path() != "time" || cal.Name() != "Sleep" {
+				continue
+			}
+			n++
+			arg := call.Call.Args[0]
+			ld, ok := arg.(*ssa.UnOp)
+			g, isG := (*ssa.Global)(nil), false
+			if ok {
+				g, isG = ld.X.(*ssa.Global)
+			}
+			if !ok || !isG {
+				c.Check(false, "runClock / the sleep duration is a fresh read of the period variable", call.Pos(), "the duration is %s, not a direct read of a package variable", arg.String())
+				continue
+			}
+			// the read must be inside the loop: its block lies on a cycle
+			inLoop := false
+			seen := map[*ssa.BasicBlock]bool{}
+			work := append([]*ssa.BasicBlock(nil), ld.Block().Succs...)
+			for len(work) > 0 {
+				x := work[0]
+				work = work[1:]
+				if seen[x] {
+					continue
+				}
+				seen[x] = true
+				if x == ld.Block() {
+					inLoop = true
+					break
+				}
+				work = append(work, x.Succs...)
+			}
+			c.Check(inLoop, "runClock / the sleep duration is a fresh read of the period variable", call.Pos(), "%s is read once before the loop (at %s): a change of the period while the clock runs is ignored until the clock goroutine exits", g.Name(), p.Pos(ld.Pos()))
+		}
+	}
+	if n == 0 {
+		c.Anchor("time.Sleep in runClock")
+	}
+}
